@@ -55,3 +55,14 @@ theorem skeleton_collectDead_ok : Gen.skeleton_collectDead =
      "atomic.StoreUint32(m.lastGCSn)", "send(m.gcchan)", "m.gcsnapshots.DeleteNode"] := rfl
 
 end NitroVerif.RefCount
+
+namespace NitroVerif.RefCountGenExtra
+open NitroVerif
+/-- iterator.go NewIterator takes its reference (Open) BEFORE anything else and Iterator.Close gives it back first:
+    NewIterator = Open and Iterator.Close = Snapshot.Close as far as the reference count protocol is concerned
+    (the steered `refcount` engine drives odd threads through these two). -/
+theorem skeleton_NitroNewIterator_ok :
+    Gen.skeleton_NitroNewIterator = ["snap.Open", "snap.db.store.MakeBuf", "m.store.NewIterator"] := rfl
+theorem skeleton_NitroIteratorClose_ok :
+    Gen.skeleton_NitroIteratorClose = ["it.snap.Close", "it.snap.db.store.FreeBuf", "it.iter.Close"] := rfl
+end NitroVerif.RefCountGenExtra
